@@ -22,7 +22,8 @@ MUTANTS = [
     ('c10-poll-discard-no-unregister', 'C10', P, "    def discard(self, fd):\n        super().discard(fd)\n        self._updateRegistration(fd)\n\n    def _generate_events(self, event):\n        try:\n            timeout = event.time_left\n            ll = self._poller.poll() if timeout < 0 else self._poller.poll(1000 * timeout)", "    def discard(self, fd):\n        super().discard(fd)\n\n    def _generate_events(self, event):\n        try:\n            timeout = event.time_left\n            ll = self._poller.poll() if timeout < 0 else self._poller.poll(1000 * timeout)"),
     ('c10-epoll-removewriter-no-update', 'C10', P, "    def removeWriter(self, fd):\n        super().removeWriter(fd)\n        self._updateRegistration(fd)\n\n    def discard(self, fd):\n        super().discard(fd)\n        self._updateRegistration(fd)\n\n    def _generate_events(self, event):\n        try:\n            timeout = event.time_left\n            ll = self._poller.poll() if timeout < 0 else self._poller.poll(timeout)", "    def removeWriter(self, fd):\n        super().removeWriter(fd)\n\n    def discard(self, fd):\n        super().discard(fd)\n        self._updateRegistration(fd)\n\n    def _generate_events(self, event):\n        try:\n            timeout = event.time_left\n            ll = self._poller.poll() if timeout < 0 else self._poller.poll(timeout)"),
     ('c10-poll-map-deleted-on-role-removal', 'C10', P, "            self._poller.register(fd, mask)\n            self._map[fileno] = fd\n        else:\n            super().discard(fd)\n            with contextlib.suppress(KeyError):", "            self._poller.register(fd, mask)\n            self._map[fileno] = fd\n            if mask != select.POLLIN | select.POLLOUT and fd is not self._ctrl_recv and len(self._map) > 2:\n                del self._map[fileno]\n        else:\n            super().discard(fd)\n            with contextlib.suppress(KeyError):"),
-    ('c10-epoll-map-not-recorded', 'C10', P, "            self._poller.register(fd, mask)\n            self._map[fileno] = fd\n        else:\n            super().discard(fd)\n\n    def addReader", "            self._poller.register(fd, mask)\n            self._map.setdefault(fileno, fd)\n        else:\n            super().discard(fd)\n\n    def addReader"),
+    ('c10-poll-map-keeps-first-object-for-a-number', 'C10', P, "            self._poller.register(fd, mask)\n            self._map[fileno] = fd\n        else:\n            super().discard(fd)\n            with contextlib.suppress(KeyError):",
+     "            self._poller.register(fd, mask)\n            self._map.setdefault(fileno, fd)\n        else:\n            super().discard(fd)\n            with contextlib.suppress(KeyError):"),
     # hang-up handling
     ('c10-poll-hup-wins-over-pending-data', 'C10', P, "        if event & self._disconnected_flag and not (event & select.POLLIN):\n            self.fire(_disconnect(fd), self.getTarget(fd))\n            self._poller.unregister(fileno)\n            super().discard(fd)\n            del self._map[fileno]\n        else:\n            try:\n                if event & select.POLLIN:", "        if event & self._disconnected_flag:\n            self.fire(_disconnect(fd), self.getTarget(fd))\n            self._poller.unregister(fileno)\n            super().discard(fd)\n            del self._map[fileno]\n        else:\n            try:\n                if event & select.POLLIN:"),
     ('c10-epoll-disconnect-on-plain-write-readiness', 'C10', P, "        self._disconnected_flag = select.EPOLLHUP | select.EPOLLERR\n", "        self._disconnected_flag = select.EPOLLHUP | select.EPOLLERR | select.EPOLLOUT\n"),
